@@ -471,15 +471,74 @@ func js(v interface{}) string {
 
 var ifaceNames = []string{"I1", "I2", "I3"}
 
+// ifacesOf lists the interfaces of the universe a concrete type implements.
+func ifacesOf(concrete string) []string {
+	var out []string
+	for _, in := range ifaceNames {
+		if implementsIface(concrete, universe[in]) {
+			out = append(out, in)
+		}
+	}
+	return out
+}
+
 func genCase(t *rapid.T) Case {
 	c := Case{Scopes: rapid.IntRange(1, 3).Draw(t, "scopes")}
 	n := rapid.IntRange(2, 16).Draw(t, "nops")
+	// registered[scope] = concrete types registered under their own type so far
+	registered := map[int][]string{}
 	for i := 0; i < n; i++ {
 		op := Op{Scope: rapid.IntRange(0, c.Scopes-1).Draw(t, "scope")}
+		// re-registration stories: register K, resolve an interface K implements,
+		// re-register K through any of the three entry points, resolve again
+		if len(registered) > 0 && rapid.IntRange(0, 3).Draw(t, "story") == 0 {
+			var scopes []int
+			for sc := range registered {
+				scopes = append(scopes, sc)
+			}
+			sort.Ints(scopes)
+			sc := scopes[rapid.IntRange(0, len(scopes)-1).Draw(t, "ssc")]
+			k := registered[sc][rapid.IntRange(0, len(registered[sc])-1).Draw(t, "sk")]
+			ifs := ifacesOf(k)
+			resolveAt := rapid.IntRange(sc, c.Scopes-1).Draw(t, "rsc")
+			use := func() Op {
+				in := []string{k}
+				if len(ifs) > 0 {
+					in = []string{ifs[rapid.IntRange(0, len(ifs)-1).Draw(t, "si")]}
+					if rapid.Bool().Draw(t, "both") {
+						in = append(in, k)
+					}
+				}
+				if rapid.IntRange(0, 3).Draw(t, "viaapply") == 0 {
+					tags := make([]bool, len(in))
+					for j := range tags {
+						tags[j] = true
+					}
+					return Op{K: "apply", Scope: resolveAt, In: in, Tag: tags}
+				}
+				return Op{K: "invoke", Scope: resolveAt, In: in, Out: 1}
+			}
+			rereg := Op{Scope: sc, T: k}
+			switch rapid.IntRange(0, 2).Draw(t, "how") {
+			case 0:
+				rereg.K = "map"
+			case 1:
+				rereg.K, rereg.As = "set", k
+			default:
+				if len(ifs) > 0 {
+					rereg.K, rereg.As = "mapto", ifs[0]
+				} else {
+					rereg.K = "map"
+				}
+			}
+			c.Ops = append(c.Ops, use(), rereg, use())
+			continue
+		}
 		switch k := rapid.IntRange(0, 11).Draw(t, "opk"); {
 		case k < 4:
 			op.K = "map"
 			op.T = concreteNames[rapid.IntRange(0, len(concreteNames)-1).Draw(t, "t")]
+			registered[op.Scope] = append(registered[op.Scope], op.T)
 		case k < 6:
 			op.K = "mapto"
 			op.As = ifaceNames[rapid.IntRange(0, 2).Draw(t, "as")]
